@@ -21,6 +21,7 @@ package home
 import (
 	"bufio"
 	"context"
+	"encoding/base64"
 	"encoding/json"
 	"fmt"
 	"io"
@@ -77,6 +78,7 @@ type c11State struct {
 	wireAddr string       // address of the real HTTP server
 	wireObs  chan *c11Obs // serving-side observation of the request in flight
 
+	stuck    int               // requests abandoned at the deadline
 	glIssued map[string]string // router tokens planted by name -> "short" | "date:<n>"
 }
 
@@ -318,7 +320,44 @@ func c11SetGlobals(firstRun, usersExist bool) {
 		a.users = nil
 	}
 	a.lock.Unlock()
+	// A fresh login rate limiter for every request (checkBasicAuth counts the
+	// failed Basic attempts of earlier requests otherwise); c11BlockAddrs blocks
+	// the two remote addresses the requests come from.
+	a.rateLimiter = newAuthRateLimiter(time.Hour, c11MaxAttempts)
 	c11SetSessions()
+}
+
+const c11MaxAttempts = 3
+
+// c11BlockAddrs makes the login rate limiter block the remote addresses of the
+// in-process requests (httptest's 192.0.2.1) and of the TCP ones (loopback).
+func c11BlockAddrs() {
+	rl := globalContext.auth.rateLimiter
+	for _, ip := range []string{"192.0.2.1", "127.0.0.1", "::1"} {
+		for range c11MaxAttempts {
+			rl.inc(ip)
+		}
+		if rl.check(ip) <= 0 {
+			panic("rate limiter does not block " + ip)
+		}
+	}
+}
+
+// c11NoLimiter reports whether the line asks for a disabled login rate limiter
+// (token "nolimiter" in its last field).
+func c11NoLimiter(f []string) bool {
+	return strings.Contains(","+f[len(f)-1]+",", ",nolimiter,") ||
+		(len(f) > 2 && strings.Contains(","+f[len(f)-3]+",", ",nolimiter,"))
+}
+
+// c11Basic splits a basic class into the credentials class and "the remote
+// address is blocked by the login rate limiter".
+func c11Basic(class string) (basic string, blocked bool) {
+	if b, ok := strings.CutSuffix(class, "blocked"); ok {
+		return b, true
+	}
+
+	return class, false
 }
 
 // c11ParseLen decodes the body field of a line: "n" is a body of n bytes with a
@@ -371,6 +410,8 @@ func c11NewRequest(method, target, lenSpec string) (r *http.Request) {
 var c11HdrTokens = []string{
 	"origin", "acrm", "acrh", "xrw", "xff", "xfproto", "xfhost", "xrealip", "upgrade", "bearer2",
 	"ckother", "ck2valid", "ck2unknown", "cksplit", "gzip", "host", "referer", "secfetch",
+	// not a header: the fixture runs with the login rate limiter disabled
+	"nolimiter",
 }
 
 // c11GLRaw, when not nil, is the raw value of an Admin-Token cookie that
@@ -424,6 +465,7 @@ func c11Decorate(r *http.Request, cookie, basic, ctype, hdrs string) {
 		r.Header.Set("Cookie", strings.Join(cookies, "; "))
 	}
 
+	basic, _ = c11Basic(basic)
 	switch basic {
 	case "none":
 	case "right":
@@ -438,8 +480,34 @@ func c11Decorate(r *http.Request, cookie, basic, ctype, hdrs string) {
 		r.Header.Set("Authorization", "Basic !!!not-base64")
 	case "bearer":
 		r.Header.Set("Authorization", "Bearer "+c11ValidTok)
+	case "m-nopayload":
+		r.Header.Set("Authorization", "Basic")
+	case "m-b64":
+		r.Header.Set("Authorization", "Basic ####")
+	case "m-nocolon":
+		r.Header.Set("Authorization", "Basic "+base64.StdEncoding.EncodeToString([]byte(c11User)))
+	case "m-colons":
+		r.Header.Set("Authorization", "Basic "+base64.StdEncoding.EncodeToString([]byte(c11User+":"+c11Password+":extra")))
+	case "m-lower":
+		r.Header.Set("Authorization", "basic "+base64.StdEncoding.EncodeToString([]byte(c11User+":"+c11Password)))
+	case "m-twice":
+		r.SetBasicAuth(c11User, "wrong password")
+		r.Header.Add("Authorization", "Basic "+base64.StdEncoding.EncodeToString([]byte(c11User+":"+c11Password)))
 	default:
-		panic("bad basic class " + basic)
+		// u<U>p<P>: a user name form and a password form
+		if len(basic) != 4 || basic[0] != 'u' || basic[2] != 'p' {
+			panic("bad basic class " + basic)
+		}
+		users := map[byte]string{
+			'r': c11User, 'c': "Admin", 'k': "nobody", 'e': "", 's': c11User + " ", 'l': strings.Repeat("a", 300),
+		}
+		passes := map[byte]string{'r': c11Password, 'w': "wrong password", 'e': "", 'l': strings.Repeat("a", 300)}
+		u, okU := users[basic[1]]
+		pw, okP := passes[basic[3]]
+		if !okU || !okP {
+			panic("bad basic class " + basic)
+		}
+		r.SetBasicAuth(u, pw)
 	}
 	if tok["bearer2"] {
 		// A further Authorization value, after the first one if there is one.
@@ -526,15 +594,36 @@ func c11Classify(method string, code int, hdr http.Header, body string, panicked
 	return "ran"
 }
 
-func c11ServeRecover(h http.Handler, rec http.ResponseWriter, r *http.Request) (panicked bool) {
-	defer func() {
-		if v := recover(); v != nil {
-			panicked = true
-		}
-	}()
-	h.ServeHTTP(rec, r)
+// c11Deadline bounds one request: a handler that blocks has been entered.
+const c11Deadline = 10 * time.Second
 
-	return false
+func c11ServeRecover(h http.Handler, rec http.ResponseWriter, r *http.Request) (panicked bool) {
+	done := make(chan bool, 1)
+	go func() {
+		defer func() {
+			if v := recover(); v != nil {
+				done <- true
+
+				return
+			}
+			done <- false
+		}()
+		h.ServeHTTP(rec, r)
+	}()
+	select {
+	case p := <-done:
+		return p
+	case <-time.After(c11Deadline):
+		// Still running: whatever blocks is past the wrappers' own answers (they
+		// never wait) or is a wrapper waiting for a lock a handler holds.  The
+		// goroutine is abandoned; the outcome counts as "handler entered".
+		c11.stuck++
+		if c11.stuck > 20 {
+			panic("more than 20 requests did not finish within the deadline")
+		}
+
+		return true
+	}
 }
 
 // c11Obs is what is observed on the serving side of one request.
@@ -622,6 +711,9 @@ func c11StartServer(t *testing.T) {
 // of unknown length really is a chunked body, and ContentLength is whatever
 // net/http's server makes of it.
 func c11Wire(method, target, cookie, basic, ctype, lenSpec, hdrs string) []string {
+	if method == "" {
+		panic("empty method on the wire")
+	}
 	hr := &http.Request{Header: http.Header{}, Host: c11.wireAddr}
 	c11Decorate(hr, cookie, basic, ctype, hdrs)
 
@@ -663,10 +755,12 @@ func c11Wire(method, target, cookie, basic, ctype, lenSpec, hdrs string) []strin
 	respBody, _ := io.ReadAll(resp.Body)
 	_ = resp.Body.Close()
 
+	// The handler hands its observation over before the connection is closed: if
+	// none is there once the response has been read, net/http answered by itself.
 	select {
 	case o := <-c11.wireObs:
 		return o.fields(method, resp.StatusCode, resp.Header, string(respBody))
-	case <-time.After(5 * time.Second):
+	case <-time.After(300 * time.Millisecond):
 		panic(fmt.Sprintf("no serving-side observation (status %d)", resp.StatusCode))
 	}
 }
@@ -785,6 +879,12 @@ func c11Run(f []string) []string {
 		c11.mu.Lock()
 		defer c11.mu.Unlock()
 		c11SetGlobals(firstRun, usersExist)
+		if _, blocked := c11Basic(basic); blocked {
+			c11BlockAddrs()
+		} else if c11NoLimiter(f) {
+			// auth_attempts / block_auth_min 0: the limiter is disabled
+			globalContext.auth.rateLimiter = nil
+		}
 		r := c11NewRequest(method, target, lenSpec)
 		c11Decorate(r, cookie, basic, ctype, hdrs)
 
@@ -801,6 +901,12 @@ func c11Run(f []string) []string {
 		c11.mu.Lock()
 		defer c11.mu.Unlock()
 		c11SetGlobals(firstRun, usersExist)
+		if _, blocked := c11Basic(basic); blocked {
+			c11BlockAddrs()
+		} else if c11NoLimiter(f) {
+			// auth_attempts / block_auth_min 0: the limiter is disabled
+			globalContext.auth.rateLimiter = nil
+		}
 		GLMode = true
 		defer func() { GLMode = false }()
 
@@ -835,6 +941,86 @@ func c11Run(f []string) []string {
 		res := glCheckToken(value)
 
 		return []string{c11GLStat(value), c11GLIssued(value), vutil.Itoa(int(now)), vutil.B(res)}
+	case "C11.start":
+		// The start-up path: the real initUsers on a data directory whose
+		// sessions.db is in state f[1], with or without administrators in the
+		// configuration; then, if start-up goes on (run() stops on an error:
+		// fatalOnError), one protected request without credentials.
+		store, usersConfigured := f[1], vutil.UnB(f[2])
+
+		c11.mu.Lock()
+		defer c11.mu.Unlock()
+		c11SetGlobals(false, true)
+
+		work, err := os.MkdirTemp("", "verif-c11-start-")
+		if err != nil {
+			panic(err)
+		}
+		defer func() { _ = os.RemoveAll(work) }()
+		data := filepath.Join(work, dataDir)
+		if err = os.MkdirAll(data, 0o755); err != nil {
+			panic(err)
+		}
+		sess := filepath.Join(data, "sessions.db")
+		switch store {
+		case "missing":
+		case "fine":
+			a := InitAuth(sess, nil, 3600, nil, nil)
+			a.addSession([]byte("0123456789abcdef"), &session{userName: c11User, expire: uint32(time.Now().Unix()) + 3600})
+			a.Close()
+		case "empty":
+			err = os.WriteFile(sess, nil, 0o644)
+		case "garbage":
+			b := make([]byte, 32768)
+			for i := range b {
+				b[i] = byte(i*131 + 7)
+			}
+			err = os.WriteFile(sess, b, 0o644)
+		case "garbage-short":
+			err = os.WriteFile(sess, []byte("not a database"), 0o644)
+		case "truncated":
+			a := InitAuth(sess, nil, 3600, nil, nil)
+			a.Close()
+			err = os.Truncate(sess, 5000)
+		case "directory":
+			err = os.MkdirAll(filepath.Join(sess, "x"), 0o755)
+		default:
+			panic("bad store state " + store)
+		}
+		if err != nil {
+			panic(err)
+		}
+
+		prevAuth, prevWork, prevUsers := globalContext.auth, globalContext.workDir, config.Users
+		defer func() {
+			if a := globalContext.auth; a != nil && a != prevAuth {
+				a.Close()
+			}
+			globalContext.auth, globalContext.workDir, config.Users = prevAuth, prevWork, prevUsers
+		}()
+		globalContext.workDir = work
+		config.Users = nil
+		if usersConfigured {
+			config.Users = c11.users
+		}
+
+		auth, ierr := initUsers()
+		if ierr != nil {
+			// run() ends here: fatalOnError(err).
+			if auth != nil {
+				auth.Close()
+			}
+
+			return []string{"0", "-", "-"}
+		}
+		globalContext.auth = auth
+
+		r := httptest.NewRequest(http.MethodGet, "/control/status", nil)
+		rec := httptest.NewRecorder()
+		o := c11Observe(rec, r)
+		kind := o.fields(http.MethodGet, rec.Code, rec.Header(), rec.Body.String())[3]
+
+		return []string{"1", vutil.B(auth == nil), kind}
 	case "C11.wire":
 		firstRun, usersExist := vutil.UnB(f[1]), vutil.UnB(f[2])
 		method, target := vutil.Unhex(f[3]), vutil.Unhex(f[4])
@@ -842,6 +1028,12 @@ func c11Run(f []string) []string {
 
 		c11.mu.Lock()
 		c11SetGlobals(firstRun, usersExist)
+		if _, blocked := c11Basic(basic); blocked {
+			c11BlockAddrs()
+		} else if c11NoLimiter(f) {
+			// auth_attempts / block_auth_min 0: the limiter is disabled
+			globalContext.auth.rateLimiter = nil
+		}
 		c11.mu.Unlock()
 
 		return c11Wire(method, target, cookie, basic, ctype, lenSpec, hdrs)
@@ -854,6 +1046,12 @@ func c11Run(f []string) []string {
 		c11.mu.Lock()
 		defer c11.mu.Unlock()
 		c11SetGlobals(firstRun, usersExist)
+		if _, blocked := c11Basic(basic); blocked {
+			c11BlockAddrs()
+		} else if c11NoLimiter(f) {
+			// auth_attempts / block_auth_min 0: the limiter is disabled
+			globalContext.auth.rateLimiter = nil
+		}
 		entered := false
 		var h http.Handler = http.HandlerFunc(func(w http.ResponseWriter, _ *http.Request) {
 			entered = true
@@ -913,8 +1111,14 @@ var (
 		"text/plain", "Application/JSON", "multipart/form-data", " application/json",
 	}
 	c11Cookies = []string{"none", "none", "none", "unknown", "expired", "valid", "valid"}
-	c11Basics  = []string{"none", "none", "none", "wrong", "right", "right", "wronguser", "emptypw", "malformed", "bearer"}
-	c11Segs    = []string{
+	c11Basics  = []string{
+		"none", "none", "none", "none", "wrong", "right", "right", "wronguser", "emptypw", "malformed", "bearer",
+		"rightblocked", "wrongblocked",
+		"urpr", "urpr", "urpw", "urpe", "urpl", "ucpr", "ucpw", "ukpr", "ukpw", "uepr", "uepw", "uepe", "uepl",
+		"uspr", "uspw", "ulpr", "ulpw", "ulpl", "ukpe", "uepe",
+		"m-nopayload", "m-b64", "m-nocolon", "m-colons", "m-lower", "m-twice", "urprblocked", "ueprblocked",
+	}
+	c11Segs = []string{
 		"", ".", "..", "control", "status", "assets", "login.html", "login.js", "login.", "index.html",
 		"install.html", "install.js", "dns-query", "apple", "doh.mobileconfig", "x", "%2e%2e", "%2F", "%2e",
 		"app.js", "a", "login", "stats", "CONTROL", "clients", "install", "configure", "favicon.png",
@@ -1038,6 +1242,23 @@ func c11GenChain(r *rand.Rand) string {
 		}
 	}
 
+	// ensure is never outside the gate: with a modifying method it holds the
+	// non-reentrant controlLock, which checkBasicAuth (07d17ef) takes again (no
+	// route of the program has that order: C11_all_routes_gated).
+	for i, w := range ws {
+		if strings.HasPrefix(w, "ensure:") {
+			for _, later := range ws[i+1:] {
+				if later == "auth" {
+					ws = append(append(append([]string{}, ws[:i]...), ws[i+1:]...), w)
+
+					break
+				}
+			}
+
+			break
+		}
+	}
+
 	return strings.Join(ws, ",")
 }
 
@@ -1083,7 +1304,13 @@ func c11Gen(r *rand.Rand, emit vutil.Emit) {
 	// extractor found.
 	declared := map[string]string{}
 	for _, f := range c11.facts {
-		declared[f.Pattern] = f.Declared
+		switch f.Declared {
+		case http.MethodGet, http.MethodPost, http.MethodPut, http.MethodDelete, http.MethodPatch, http.MethodHead:
+			declared[f.Pattern] = f.Declared
+		default:
+			// none, or "?" (the extractor could not tell)
+			declared[f.Pattern] = ""
+		}
 	}
 	union := map[string]bool{}
 	for _, p := range c11.patterns {
@@ -1126,6 +1353,12 @@ func c11Gen(r *rand.Rand, emit vutil.Emit) {
 			emit("C11.req", "0", "1", vutil.Hex(mm), vutil.Hex(path), "none", "bearer", "-", "0", strings.Join(c11HdrTokens, ","))
 			emit("C11.req", "0", "1", vutil.Hex(mm), vutil.Hex(path), "unknown", "none", "-", "0", "ckother,ck2valid,cksplit,bearer2")
 		}
+		// Basic credentials that name no configured user, the empty name first.
+		for _, b := range []string{"uepr", "uepe", "uepw", "ukpr", "ucpr", "uspr", "m-nocolon", "m-colons"} {
+			emit("C11.req", "0", "1", vutil.Hex(m), vutil.Hex(path), "none", b, "-", "0", "-")
+			emit("C11.req", "0", "1", vutil.Hex(m), vutil.Hex(path), "none", b, vutil.Hex("application/json"), "2", "nolimiter")
+		}
+		emit("C11.req", "0", "1", vutil.Hex(m), vutil.Hex(path), "none", "urpr", "-", "0", "nolimiter")
 		emit("C11.wire", "0", "1", vutil.Hex(http.MethodOptions), vutil.Hex(path), "none", "none", "-", "0", "origin,acrm")
 	}
 
@@ -1149,8 +1382,12 @@ func c11Gen(r *rand.Rand, emit vutil.Emit) {
 				emit("C11.req", "0", "1", vutil.Hex(declared[p]), vutil.Hex(p), "valid", "none", vutil.Hex(ct), ls)
 			}
 		}
-		emit("C11.wire", "0", "1", vutil.Hex(declared[p]), vutil.Hex(p), "valid", "none", "-", "u2")
-		emit("C11.wire", "0", "1", vutil.Hex(declared[p]), vutil.Hex(p), "none", "right", "-", "u0")
+		wm := declared[p]
+		if wm == "" {
+			wm = http.MethodPost
+		}
+		emit("C11.wire", "0", "1", vutil.Hex(wm), vutil.Hex(p), "valid", "none", "-", "u2")
+		emit("C11.wire", "0", "1", vutil.Hex(wm), vutil.Hex(p), "none", "right", "-", "u0")
 	}
 
 	// gl-inet mode: every route x the token matrix without any other credential
@@ -1169,6 +1406,12 @@ func c11Gen(r *rand.Rand, emit vutil.Emit) {
 		}
 		emit("C11.gl", "0", "0", vutil.Hex(m), vutil.Hex(p), "none", "none", "-", "0", "-", "none", vutil.Hex("router.lan:80"))
 		emit("C11.gl", "1", "0", vutil.Hex(m), vutil.Hex(p), "none", "none", "-", "0", "-", vutil.Hex("fresh"), vutil.Hex("router.lan"))
+	}
+	for _, st := range []string{"missing", "fine", "empty", "garbage", "garbage-short", "truncated", "directory"} {
+		for range 3 {
+			emit("C11.start", st, "1")
+			emit("C11.start", st, "0")
+		}
 	}
 	for _, v := range c11GLValues {
 		emit("C11.gltok", vutil.Hex(v))
